@@ -28,7 +28,7 @@ static void mode_pairs(void) {
     /* equal matrices */
     if (!mzd_equal(wa.view, wb.view)) vx_fail("mzd_equal", "equal-matrices", "%dx%d base %d placement %d: equal matrices reported different", r, c, base, pl);
     if (mzd_cmp(wa.view, wb.view) != 0) vx_fail("mzd_cmp", "equal-matrices", "%dx%d base %d placement %d: cmp != 0 for equal matrices", r, c, base, pl);
-    if (mzd_is_zero(wa.view) != (base == 0)) vx_fail("mzd_is_zero", "zero-test", "%dx%d base %d placement %d", r, c, base, pl);
+    if ((mzd_is_zero(wa.view) != 0) != pm_is_zero(A)) vx_fail("mzd_is_zero", "zero-test", "%dx%d base %d placement %d", r, c, base, pl);
     for (int i = 0; i < r; i++) for (int j = 0; j < c; j++) {
       /* flip (i,j) in B (through the raw word, independent of the library accessors) */
       uint64_t *w = (uint64_t *)wb.view->data + (size_t)i * wb.view->rowstride + (j >> 6); *w ^= 1ULL << (j & 63);
